@@ -4,7 +4,7 @@
 From Coq Require Import List NArith ZArith Bool.
 From Coq Require Import Init.Byte.
 From FFS Require Import Base.Res Base.Bytes Base.Lit Abi.Types Abi.Spec Abi.ModelTypes Abi.DecModel Abi.DecCost
-  Abi.DecTotalProofs Abi.RunC11.
+  Abi.DecTotalProofs Abi.SerModel Abi.DecTotalProofs2 Abi.EntryModel Abi.DecTotalProofs3 Abi.DecSpec Abi.EncModel Abi.EncProofs3 Abi.DecTotalProofs4 Abi.RunC11.
 Import ListNotations.
 Local Open Scope Z_scope.
 
@@ -26,9 +26,31 @@ Print Assumptions C11_total.
 
 (* ... and call data / revert data (Entry.DecodeCallData, for any selector). *)
 Theorem C11_total_calldata :
-  forall (id : bytes) (c : tcomp) (bs : bytes), tc_wf c = true -> DecodeCallData id c bs <> Panic.
+  forall (id : bytes) (c : tcomp) (bs : bytes), tc_wf c = true -> DecModel.DecodeCallData id c bs <> Panic.
 Proof. exact DecodeCallData_total. Qed.
 Print Assumptions C11_total_calldata.
+
+(* ... and the entry level of abi.go (model Abi/EntryModel.v instantiated with this decoder):
+   event logs - any topic list, topics of any width, any data ... *)
+Theorem C11_total_event :
+  forall (H : bytes -> bytes) (e : entry) (topics : list bytes) (data : bytes),
+    params_wf (e_inputs e) ->
+    DecodeEventData H DecModel.DecodeABIData DecModel.decode_elementary e topics data <> Panic.
+Proof. exact DecodeEventData_total. Qed.
+Print Assumptions C11_total_event.
+
+(* ... and revert data against any list of error definitions (ParseError, ErrorString), for any
+   32-byte hash function. *)
+Theorem C11_total_revert :
+  forall (H : bytes -> bytes), (forall x, length (H x) = 32%nat) ->
+  forall (format_args : cval -> option (list bytes)) (a : list entry) (revertData : bytes),
+    (forall e, In e a -> params_wf (e_inputs e)) ->
+    ParseError H DecModel.DecodeABIData a revertData <> Panic /\
+    ErrorString H DecModel.DecodeABIData format_args a revertData <> Panic.
+Proof.
+  intros H HH fa a rd Hw. split; [apply ParseError_total|apply ErrorString_total]; assumption.
+Qed.
+Print Assumptions C11_total_revert.
 
 (* 2. Memory.  [DecodeABIData_c] is the decoder observed more closely: the same result ... *)
 Theorem C11_cost_twin :
@@ -64,6 +86,67 @@ Theorem C11_bound_shape :
 Proof. exact (conj bound_dyn (conj bound_fixed (conj bound_tuple bound_mono))). Qed.
 Print Assumptions C11_bound_shape.
 
+(* 3. A returned tree can always be serialised to JSON: the model of outputserialization.go
+      (Abi/SerModel.v) never panics on a decoded tree, in any formatting mode, with any built-in
+      integer / byte / address serializer, any float serializer, default-name generator and hash
+      function (the address FillBytes cannot overflow: the reader takes exactly 20 bytes). *)
+Theorem C11_serializable :
+  forall (c : tcomp) (bs : bytes) (off : Z) (x : cval),
+    tc_wf c = true -> DecodeABIData c bs off = Ok x ->
+    forall (H : bytes -> bytes) (fs : bfloat -> jv) (dn : nat -> bytes) (s : serializer),
+      SerializeJSON H fs dn s x <> Panic /\ SerializeInterface H fs dn s x <> Panic.
+Proof. exact decoded_serializable. Qed.
+Print Assumptions C11_serializable.
+
+Theorem C11_serializable_calldata :
+  forall (id : bytes) (c : tcomp) (bs : bytes) (x : cval),
+    tc_wf c = true -> DecModel.DecodeCallData id c bs = Ok x ->
+    forall (H : bytes -> bytes) (fs : bfloat -> jv) (dn : nat -> bytes) (s : serializer),
+      SerializeJSON H fs dn s x <> Panic /\ SerializeInterface H fs dn s x <> Panic.
+Proof. exact decoded_calldata_serializable. Qed.
+Print Assumptions C11_serializable_calldata.
+
+(* 4. Stability.  What a decoded tree looks like (unconditional): it is shaped like the component
+      tree, holds at every leaf the Go value kind the encoder asserts, is the canonical tree
+      [cv_of c (val_of x)] of its own value, and - if the encoder accepts it and its bool leaves hold
+      0 or 1 - its value is well typed in the sense of the ABI specification. *)
+Theorem C11_decoded_tree_shape :
+  forall (c : tcomp) (bs : bytes) (off : Z) (x : cval),
+    tc_wf c = true -> tc_no_fixed_point c = true -> DecodeABIData c bs off = Ok x ->
+    typed_as c x = true /\ values_ok x = true /\ cv_of c (val_of x) = x /\
+    ((exists r, encodeABIData x = Ok r) -> bools_ok x = true -> well_typed (ty_of c) (val_of x) = true).
+Proof. exact DecodeABIData_facts. Qed.
+Print Assumptions C11_decoded_tree_shape.
+
+(* PARTIAL: decoding the re-encoding of a decoded tree yields the same tree, *given* C03's round-trip
+   statement for the decoder ([decode_inverts_enc]: decoding the specification encoding of a well
+   typed value returns its canonical tree), through C02's theorem that the encoder produces the
+   specification encoding.  Guards: no fixed-point leaf (refuted below), no zero-length fixed
+   array, bool leaves holding 0 or 1 (a bool decoded from a word 2..255 re-encodes and re-decodes to
+   itself in the implementation, but is outside the specification's typing and so outside this
+   route), and C02's size guard (fewer than 2^248 bytes/nodes). *)
+Theorem C11_stable_partial :
+  decode_inverts_enc ->
+  forall (c : tcomp) (bs : bytes) (off : Z) (x : cval) (e : bytes),
+    tc_wf c = true -> tc_no_fixed_point c = true -> tc_no_zero_len c = true ->
+    DecodeABIData c bs off = Ok x -> EncodeABIData x = Ok e ->
+    bools_ok x = true -> weight_ok (val_of x) ->
+    DecodeABIData c e 0 = Ok x.
+Proof. exact stable_given_roundtrip. Qed.
+Print Assumptions C11_stable_partial.
+
+(* REFUTED for fixed-point leaves (known finding C11/fixed-point-reencode): fixed8x1 decoded from
+   the word -1 is -0.1; the encoder takes the absolute value, so the re-encoding decodes to +0.1 *)
+Theorem C11_stable_fixed_refuted :
+  exists (c : tcomp) (bs : bytes) (x : cval) (e : bytes),
+    tc_wf c = true /\ DecodeABIData c bs 0 = Ok x /\ EncodeABIData x = Ok e /\
+    match DecodeABIData c e 0 with Ok x' => cval_eqb x x' | _ => false end = false.
+Proof.
+  exists (tc_of_ty (TTuple [TFixed 8 1])), (repeat xff 32). eexists. eexists.
+  split; [vm_compute; reflexivity|]. split; [vm_compute; reflexivity|]. split; vm_compute; reflexivity.
+Qed.
+Print Assumptions C11_stable_fixed_refuted.
+
 (* ---------- non-vacuity ---------- *)
 (* (uint256[], string): valid, inside the memory clause; the D11a witness (count 2^32-1 in 64 bytes)
    is an error that requests nothing, a well-formed input decodes and stays below the bound *)
@@ -85,3 +168,37 @@ Example C11_zero_size_elements_are_unbounded :
   tc_wf c = true /\ no_zero_size_elem c = false /\
   (bound c (N.of_nat (length bs)) < alloc (DecodeABIData_c c bs 0))%N.
 Proof. vm_compute. auto. Qed.
+(* an address word with dirty upper bytes decodes (the reader takes the low 20 bytes) and serialises *)
+Example C11_serializable_nonvacuous :
+  let c := tc_of_ty (TTuple [TAddress; TDynArr TBool]) in
+  let bs := repeat xff 32 ++ w 64 ++ w 1 ++ repeat xff 32 in
+  exists x, DecodeABIData c bs 0 = Ok x /\
+            is_ok (SerializeJSON (fun _ => []) (fun _ => JNull) (fun _ => []) NewSerializer x) = true.
+Proof. eexists. split; [vm_compute; reflexivity|vm_compute; reflexivity]. Qed.
+(* an event with an indexed string, an indexed uint8 and a data bytes: the hypothesis is met, a short
+   topic is an error, not a panic *)
+Example C11_total_event_nonvacuous :
+  let e := mkEntry TyEvent [x45] true
+             [mkParam (Some (tc_of_ty TString)) true; mkParam (Some (tc_of_ty (TUInt 8))) true;
+              mkParam (Some (tc_of_ty TBytes)) false] in
+  params_wf (e_inputs e) /\
+  is_ok (DecodeEventData (fun _ => []) DecModel.DecodeABIData DecModel.decode_elementary e
+           [repeat xff 33; w 7] (w 32 ++ w 1 ++ w 0)) = true /\
+  is_err (DecodeEventData (fun _ => []) DecModel.DecodeABIData DecModel.decode_elementary e
+           [repeat xff 33; repeat x00 31] (w 32 ++ w 1 ++ w 0)) = true.
+Proof.
+  split; [|split; vm_compute; reflexivity].
+  intros p tc [<-|[<-|[<-|[]]]] E; injection E as <-; reflexivity.
+Qed.
+(* the hypotheses of C11_stable_partial are met by a decoded (uint8[], string, bool) *)
+Example C11_stable_hypotheses_met :
+  let c := tc_of_ty (TTuple [TDynArr (TUInt 8); TString; TBool]) in
+  let bs := w 96 ++ w 160 ++ w 1 ++ w 1 ++ repeat xff 32 ++ w 2 ++ [x41; x42] ++ repeat x00 30 in
+  exists x e, tc_wf c = true /\ tc_no_fixed_point c = true /\ tc_no_zero_len c = true /\
+              DecodeABIData c bs 0 = Ok x /\ EncodeABIData x = Ok e /\ bools_ok x = true /\
+              DecodeABIData c e 0 = Ok x.
+Proof.
+  eexists. eexists. split; [vm_compute; reflexivity|]. split; [vm_compute; reflexivity|].
+  split; [vm_compute; reflexivity|]. split; [vm_compute; reflexivity|].
+  split; [vm_compute; reflexivity|]. split; vm_compute; reflexivity.
+Qed.
